@@ -42,10 +42,17 @@ def run_job(job):
     cmd = [PY, "-m", "engine.worker", modname, obname, json.dumps(shard), "1" if twin else "0", tier, out]
     t0 = time.time()
     try:
-        p = subprocess.run(cmd, env=_env(), cwd=VERIF, capture_output=True, text=True, timeout=hard_timeout)
+        for attempt in range(3):
+            p = subprocess.run(cmd, env=_env(), cwd=VERIF, capture_output=True, text=True, timeout=hard_timeout)
+            if p.returncode >= 0 or os.path.getsize(out) > 0:
+                break
+            # the worker process was killed by a signal (e.g. a crash inside a C extension):
+            # an infrastructure failure, not a verdict - run the job again
         try:
             with open(out) as f:
                 res = json.load(f)
+            if attempt:
+                res["retries_after_worker_crash"] = attempt
         except Exception:
             res = {
                 "status": "error",
